@@ -99,8 +99,32 @@ def chained_case(col, first):
     col.add(None if bad is None else {"sig": "native::transform::chained", "what": bad, "input": {"first_transformation": first, "second": "Shift(0.3) instance"}})
 
 
+def boundary_value_case(col, how):
+    """an initial value with one element ON the boundary of the support (mapped to -inf by the default bijector): the original variable
+    keeps its value in every element, whichever entry point performs the transformation"""
+    x0 = np.array([0.0, 1.0, 2.0], np.float32)
+    x = lsl.param(x0.copy(), lsl.Dist(tfd.Exponential, rate=1.0), name="x")
+    if how == "auto":
+        x.auto_transform = True
+    else:
+        x.transform()
+    y = lsl.obs(np.float32(0.1), lsl.Dist(tfd.Normal, loc=lsl.Calc(jnp.sum, x), scale=1.0), name="y")
+    model = lsl.GraphBuilder().add(y).build_model()
+    got = np.asarray(model.vars["x"].value)
+    t = np.asarray(model.vars["x_transformed"].value)
+    b = tfd.Exponential(1.0).experimental_default_event_space_bijector()
+    ok = np.allclose(got, x0, atol=1e-6) and np.allclose(np.asarray(b.forward(t)), x0, atol=1e-6)
+    col.add(None if ok else {"sig": "native::transform::boundary_value", "what": f"{how}: original value {x0.tolist()} became {got.tolist()} (unconstrained {t.tolist()})",
+                             "input": {"entry": how, "initial_value": x0.tolist(), "distribution": "Exponential(1)"}})
+
+
 def bounded(tier, seed):
     col = util.Collector()
+    for how in ("auto", "manual"):
+        try:
+            boundary_value_case(col, how)
+        except Exception as e:
+            col.add({"sig": f"native::transform::exception::{type(e).__name__}", "what": f"boundary/{how}: {str(e)[:200]}", "input": {"entry": how}})
     for first in ("instance", "default"):
         try:
             chained_case(col, first)
@@ -121,5 +145,5 @@ def bounded(tier, seed):
     return {"evaluations": col.evals, "distinct_nontrivial": n,
             "rule": (f"BOUNDED: {len(DISTS)} distributions (Exponential, HalfCauchy, InverseGamma, Gamma, Beta, Uniform with variable bounds) x entry points (default, auto-transform, "
                      f"Exp instance, Scale class with a model variable as argument, deprecated builder method) at {len(ts)} unconstrained points, before and after doubling a distribution "
-                     "parameter and changing the bijector argument: value of the original variable = b(t), new log-density = p(b(t)) + log|db/dt| computed directly with TFP; a chain of two transformations (the new variable transformed again)."),
+                     "parameter and changing the bijector argument: value of the original variable = b(t), new log-density = p(b(t)) + log|db/dt| computed directly with TFP; an initial value with an element on the support boundary (auto and manual); a chain of two transformations (the new variable transformed again)."),
             "samples": [{"distribution": "Uniform", "entry": "default"}], "exhaustive": False, "violations": col.violations}
